@@ -126,7 +126,37 @@ func c12Cases(run *vx.Run) []c12Case {
 		}
 		return p
 	}
+	// repetitive content (a 16x16 tile repeated, rows repeating with period 3, flat blocks on a slow gradient) above
+	// 50 000 pixels: backward-reference search finds long matches everywhere, so the match finder's serial and
+	// parallel variants are both exercised where they could disagree
+	repetitive := func(kind, w, h int) *image.NRGBA {
+		p := image.NewNRGBA(image.Rect(0, 0, w, h))
+		for y := 0; y < h; y++ {
+			for x := 0; x < w; x++ {
+				var r, g, b uint8
+				switch kind {
+				case 0:
+					s := uint32((x%16)*131+(y%16)*977)*1664525 + 1013904223
+					r, g, b = uint8(s>>24), uint8(s>>16), uint8(s>>8)
+				case 1:
+					s := uint32(x*31+(y%3)*7919)*1664525 + 1013904223
+					r, g, b = uint8(s>>24), uint8(s>>16), uint8(s>>8)
+				default:
+					r, g, b = uint8(x/2), uint8(y/2), 200
+					if (x/7+y/11)%3 == 0 {
+						r, g, b = 20, 20, uint8(x)
+					}
+				}
+				i := p.PixOffset(x, y)
+				p.Pix[i], p.Pix[i+1], p.Pix[i+2], p.Pix[i+3] = r, g, b, 255
+			}
+		}
+		return p
+	}
 	imgs := []im{
+		{"tiles-400x300", repetitive(0, 400, 300)},
+		{"rows-400x300", repetitive(1, 400, 300)},
+		{"blocks-400x300", repetitive(2, 400, 300)},
 		{"graded-200x150", graded(200, 150)},
 		{"graded-333x247", graded(333, 247)},
 		{"noise-400x293", noiseNRGBA(rng, 400, 293, 0)},
